@@ -31,13 +31,13 @@ COMPONENTS_STUB = ["RandomSource.randint/random_float (SimRandom)", "fitness fun
 ASSUMPTIONS = ["an operator that must evaluate may ADD a missing fitness or phenotype cache to an input individual, never change an existing one",
                "Individual.metadata (e.g. the generation tag written by Population) is not node metadata and is not compared"]
 
-FEAT = features(list=2, annlist=2, union=1, tuple=1, cls=8, refined=3, nested=1, standalone=1, dependent=1)
+FEAT = features(list=2, annlist=2, union=1, tuple=1, cls=8, refined=3, nested=1, standalone=1, dependent=1, concrete_start=2)
 
 
 def budget(tier):
     if tier == "thorough":
         return {"runs": 60000, "run_timeout": 180, "max_wall": 1500}
-    return {"runs": 5000, "run_timeout": 60, "max_wall": 200}
+    return {"runs": 3000, "run_timeout": 60, "max_wall": 200}
 
 
 def run(ctx):
@@ -58,6 +58,7 @@ def run(ctx):
             ctx.stat("foreign_failure:construct")
             return
         kind = w.rep_kind
+        w.random.op_cap = 2500  # every snapshot is re-taken after every operation: keep programs small
         multi = H.draw(3) == 2
         invocations = []
 
@@ -113,6 +114,7 @@ def run(ctx):
         pre_eval = H.draw(4) != 0
         if pre_eval:
             reset_gene_read_cap(40000)
+            w.random.reset_cap()
             try:
                 evaluator.evaluate(problem, pool)
             except (Exception, SimStepCap):
@@ -128,6 +130,7 @@ def run(ctx):
                 break
             op = H.weighted([("step", 6), ("mutate", 2), ("crossover", 2)])
             reset_gene_read_cap(40000)
+            w.random.reset_cap()
             try:
                 if op == "mutate":
                     a = pool[H.draw(len(pool))]
